@@ -71,7 +71,10 @@ def rand_installation(gen: int, rng: random.Random):
         bounds = [0] + cuts + [n_z]
         acs = [console.AcSpec(numbers[i], f"AC {numbers[i]}", rand_bits(rng, 5), rand_bits(rng, nf), lims, start=bounds[i],
                               count=bounds[i + 1] - bounds[i]) for i in range(n_acs)]
-    names = {z: rng.choice(["Living", "Bed", "Küche", "A", "", "Zone%d" % z])[:8] for z in ids}
+    order = list(ids)
+    if rng.random() < 0.4:
+        rng.shuffle(order)          # the names message need not list the zones in ascending order
+    names = {z: rng.choice(["Living", "Bed", "Küche", "A", "", "Zone%d" % z])[:8] for z in order}
     inst = console.Installation(gen, acs, names, version=(rng.random() < 0.3, rng.choice([["1.2.3"], ["1.0", "2.0"], ["9"]])))
     for a in acs:
         inst.ac_status[a.number] = rand_ac_status(inst, rng, a.number)
